@@ -192,6 +192,19 @@ CLAIMED = {
         design_ref="DESIGN.md section 5 C04",
         note="Trusted: TLC, the renderer's offset marks (which rules/declarations are complete before a cut), the projection. The inserted "
              "construct itself may or may not appear in the DOM."),
+    "C01": dict(
+        technique="TLA+ context automaton of the grammar (Soup.tla: 29 parser contexts x 64 token kinds, Shift checked total by TLC) "
+                  "generating token sequences per context, nesting sweeps and entry-point x option x fetcher x import-graph rows; every "
+                  "row executed through the non-raising entry points under a CPU budget; TLC trace monitor (SoupContract)",
+        text="Bounded exhaustive over the (context x token x next token) product: every token in every context, token pairs in 10 "
+             "(quick) / all 28 contexts, sheet-level triples (thorough), 15 openers nested to depths 1..100 in 4 contexts closed and "
+             "unclosed, 648 configuration rows (text / bytes / style attribute x fetcher content / None / (None,None) / () / bytes "
+             "with BOM or @charset x chain, diamond, self-loop, 2-cycle, missing imports), parser options rotating, plus the "
+             "repository's sheets with seeded cuts and mutations. TLC checks: returns the documented class, never raises, CPU "
+             "time <= 1 s + 50 us x n^2, result serialises, serialisation parses and serialises again.",
+        design_ref="DESIGN.md section 5 C01",
+        note="Trusted: TLC, the adapter's spelling table, process CPU time measurement (TLC has no notion of time: the bounded-time clause "
+             "is decided on the replayed behaviours). One known finding ('@charset\"abc')."),
 }
 PENDING = "check not built yet in this round (see DESIGN.md section 10 build order); no claim is made"
 NOT_APPLICABLE = {}
